@@ -3,7 +3,7 @@
 From Coq Require Import ZArith List Bool Lia.
 From Mistletoe Require Import Base.Sx Base.PyStr Base.PyText Gen.GenConfig Model.Tree Model.CoreTokens Model.Inline
      Proofs.PlainProse Proofs.EmphSentence Proofs.RefSentence Proofs.LinkSentence Proofs.CodeSpan Proofs.StrikeSentence Proofs.EscSentence Proofs.ImageSentence
-     Proofs.LeafSpans Proofs.ListLaw Proofs.EmphSimple Proofs.EmphPhrases Proofs.NestedEmph Proofs.TitleLink Proofs.AutoLinkSentence Proofs.AngleLink Spec.Fragment.
+     Proofs.LeafSpans Proofs.ListLaw Proofs.EmphSimple Proofs.EmphPhrases Proofs.NestedEmph Proofs.TitleLink Proofs.AutoLinkSentence Proofs.AngleLink Proofs.LinkEmph Spec.Fragment.
 Import ListNotations.
 Local Open Scope Z_scope.
 
@@ -16,6 +16,7 @@ Definition inl_ok (pre : str) (x : inl) (post : str) : bool :=
   | ILinkT w d q tl => tlink_ok pre w d q tl post && (match tl with [] => false | _ => true end)
   | IAuto c0 sc r => auto_ok pre c0 sc r post
   | ILinkA w c0 d => alink_ok pre w c0 d post
+  | ILinkE h ps z d => elink_ok pre h ps z d post
   end.
 
 Definition inl_tok (x : inl) : tok :=
@@ -27,6 +28,7 @@ Definition inl_tok (x : inl) : tok :=
   | ILinkT w d q tl => tlink_of w d q tl
   | IAuto c0 sc r => auto_of (c0 :: sc ++ 58 :: r)
   | ILinkA w c0 d => alink_of w (c0 :: d)
+  | ILinkE h ps z d => elink_of h ps z d
   end.
 
 Theorem one_in_sentence types fn pre x post :
@@ -34,7 +36,7 @@ Theorem one_in_sentence types fn pre x post :
   tokenize_inner types fn (pre ++ inl_text x ++ post) = raw_if pre ++ [inl_tok x] ++ raw_if post.
 Proof.
   intros Hs Hem Ho. unfold leaf_spans in Hs. repeat rewrite andb_true_iff in Hs. destruct Hs as [[[[Hr _] Hst] He] Hau].
-  destruct x as [w|c|w d|ch k h ps z|w d q tl|u0 usc ur|aw a0 ad]; cbn [inl_ok inl_text inl_tok] in *.
+  destruct x as [w|c|w d|ch k h ps z|w d q tl|u0 usc ur|aw a0 ad|eh eps ez ed]; cbn [inl_ok inl_text inl_tok] in *.
   - rewrite <- !app_assoc. apply strike_in_sentence; assumption.
   - change (pre ++ [92; c] ++ post) with (pre ++ [92; c] ++ post). apply escape_in_sentence; assumption.
   - rewrite <- !app_assoc. apply image_in_sentence; assumption.
@@ -42,11 +44,12 @@ Proof.
   - apply andb_true_iff in Ho as [Ho _]. rewrite <- !app_assoc. change (title_closer q) with (closer q). apply titled_link_in_sentence; assumption.
   - pose proof (autolink_in_sentence types fn pre u0 usc ur post Hau Ho) as T. rewrite <- !app_assoc. exact T.
   - pose proof (angle_link_in_sentence types fn pre aw a0 ad post Hr Hau Ho) as T. rewrite <- !app_assoc. exact T.
+  - pose proof (link_with_emphasis types fn pre eh eps ez ed post Hr Ho) as T. rewrite <- !app_assoc in T. cbn [inl_text]. rewrite <- !app_assoc. exact T.
 Qed.
 
 Lemma inl_plain pre x post : inl_ok pre x post = true -> plain_text pre = true /\ plain_text post = true.
 Proof.
-  destruct x as [w|c|w d|ch k h ps z|w d q tl|u0 usc ur|aw a0 ad]; cbn [inl_ok]; intros H.
+  destruct x as [w|c|w d|ch k h ps z|w d q tl|u0 usc ur|aw a0 ad|eh eps ez ed]; cbn [inl_ok]; intros H.
   - unfold strike_ok in H. repeat rewrite andb_true_iff in H. tauto.
   - unfold esc_ok in H. repeat rewrite andb_true_iff in H. tauto.
   - unfold ilink_ok in H. repeat rewrite andb_true_iff in H. tauto.
@@ -54,6 +57,7 @@ Proof.
   - unfold tlink_ok, ilink_ok in H. repeat rewrite andb_true_iff in H. tauto.
   - unfold auto_ok in H. repeat rewrite andb_true_iff in H. tauto.
   - unfold alink_ok in H. repeat rewrite andb_true_iff in H. tauto.
+  - unfold elink_ok in H. repeat rewrite andb_true_iff in H. tauto.
 Qed.
 
 (* neither a newline nor a pipe in the sentence *)
@@ -64,7 +68,7 @@ Proof.
   assert (Hr : mem c triggers_r = true) by (destruct Hc as [->| ->]; reflexivity).
   unfold mem. rewrite !existsb_app. fold (mem c pre). fold (mem c post). fold (mem c (inl_text x)).
   rewrite (plain_no c pre Ht Hpre), (plain_no c post Ht Hpost), orb_false_r. cbn [orb].
-  destruct x as [w|e|w d|ch k h ps z|w d q tl|u0 usc ur|aw a0 ad]; cbn [inl_ok inl_text] in *.
+  destruct x as [w|e|w d|ch k h ps z|w d q tl|u0 usc ur|aw a0 ad|eh eps ez ed]; cbn [inl_ok inl_text] in *.
   - unfold strike_ok in Ho. repeat rewrite andb_true_iff in Ho. destruct Ho as [[[_ Hw] _] _].
     unfold mem. rewrite !existsb_app. fold (mem c w). rewrite (plain_no c w Ht Hw). destruct Hc as [->| ->]; reflexivity.
   - unfold esc_ok in Ho. repeat rewrite andb_true_iff in Ho. destruct Ho as [_ He]. unfold esc_char in He. apply andb_true_iff in He as [_ He]. apply negb_true_iff in He.
@@ -92,4 +96,9 @@ Proof.
   - unfold alink_ok in Ho. repeat rewrite andb_true_iff in Ho. destruct Ho as [[[[[[[_ Hw] _] _] _] _] Hd] _].
     assert (Ha : mem c triggers_a = true) by (destruct Hc as [->| ->]; reflexivity).
     unfold mem. rewrite !existsb_app. fold (mem c aw). fold (mem c (a0 :: ad)). rewrite (plain_no c aw Ht Hw), (adest_no c (a0 :: ad) (or_introl Ha) Hd). destruct Hc as [->| ->]; reflexivity.
+  - unfold elink_ok in Ho. repeat rewrite andb_true_iff in Ho. destruct Ho as [[[[[[[[_ H2] _] H4] _] H6] _] H8] _].
+    assert (C1 : c <> 42) by (destruct Hc as [->| ->]; discriminate). assert (C2 : c <> 95) by (destruct Hc as [->| ->]; discriminate).
+    assert (Hps : Forall phrase_ok eps) by (apply Forall_forall; intros p Hp; rewrite forallb_forall in H4; apply phrase_okb_spec; apply H4; exact Hp).
+    unfold mem. rewrite !existsb_app. fold (mem c eh). fold (mem c (body eps)). fold (mem c ez). fold (mem c ed).
+    rewrite (plain_no c eh Ht H2), (plain_no c ez Ht H6), (body_no c Ht C1 C2 eps Hps), (dest_no c ed Hr H8). destruct Hc as [->| ->]; reflexivity.
 Qed.
